@@ -32,10 +32,12 @@ def run(ctx, rep):
     rep.guarded("R07-CALLERS", lambda: r_callers(fl, rep))
     rep.guarded("R07-VARIANTS", lambda: r_variants(sh, rep))
     rep.guarded("R07-CTORS", lambda: r_ctors(sh, rep))
-    rep.rule("R07-SEED", "decision-tree matrices: every find-by-case on case_matrices / relevant_columns that updates on a hit creates the entry on a miss (case matrices seeded from the default rows)", floor=6)
+    rep.rule("R07-SEED", "decision-tree matrices: every find-by-case on case_matrices / relevant_columns that updates on a hit creates the entry on a miss (case matrices seeded from the default rows); tail rows are distributed over an inclusive range of lengths", floor=8)
     rep.guarded("R07-SEED", lambda: r_seed(sh, rep))
     rep.rule("R07-TAILPICK", "the tree run for a list of a given length is chosen among the `[.., ..tail]` cases by longest fitting prefix, never by position in the case table", floor=2)
     rep.guarded("R07-TAILPICK", lambda: r_tailpick(sh, rep))
+    rep.rule("R07-LEAFARGS", "a clause body hoisted out of the decision tree is called, at every leaf, with its arguments in the order of its parameters", floor=1)
+    rep.guarded("R07-LEAFARGS", lambda: r_leafargs(sh, rep))
     rep.rule("R07-LITEQ", "literal patterns are told apart exactly: equality on exhaustive::Literal / Pattern is structural (derived) or, if written by hand, free of lossy conversions", floor=2)
     rep.guarded("R07-LITEQ", lambda: r_liteq(sh, rep))
 
@@ -220,6 +222,16 @@ def r_seed(sh, rep):
         creates = els is not None and any(c.get("k") == "MethodCall" and c["m"] == "push" and c["recv"].get("k") == "Path" and c["recv"]["p"] == vec for c in walk(els))
         seeded = KEYED[vec] is None or (els is not None and any(x.get("k") == "Path" and x["p"] == KEYED[vec] for x in walk(els)))
         rep.check(creates and seeded, "R07-SEED", "do_build_tree#%s#find-or-create#%d" % (vec, n), sh.loc(DT, node), "this lookup in `%s` handles only the hit (miss branch %s%s): a row whose case has no entry yet is dropped, and a later clause creating the entry starts from the wildcard rows alone — a list or constructor value then runs a later clause than the first one that matches" % (vec, "creates an entry" if creates else "does not create the entry", "" if seeded else ", not seeded from `%s`" % KEYED[vec]), sample={"table": vec, "line": node["s"][0]})
+    # the two distribution loops: a `[.., ..tail]` row with prefix k goes into every List(n) / ListWithTail(n) matrix for
+    # n from k up to *and including* the longest pattern of that kind
+    nl = 0
+    for node in walk(f["body"]):
+        if node.get("k") == "For" and node["e"].get("k") == "Range" and node["e"].get("lo") is not None and node["e"].get("hi") is not None and "tail_case_length" in sh.nsrc(DT, node["e"]["lo"]):
+            nl += 1
+            hi = sh.nsrc(DT, node["e"]["hi"])
+            rep.check(bool(node["e"].get("closed")) and "longest" in hi, "R07-SEED", "do_build_tree#distribution-range#%s" % hi, sh.loc(DT, node), "the row of a tail pattern must be copied into the matrices of every length from its prefix up to and including `%s` (an inclusive range): with an exclusive bound the longest fixed-length case lacks the earlier tail clause, and a list of exactly that length that fails the fixed pattern's inner test skips to a later clause" % hi, sample={"range": sh.nsrc(DT, node["e"])})
+    if nl < 2:
+        rep.bad("R07-SEED", "do_build_tree#distribution-loops", sh.loc(DT, f), "only %d distribution loop(s) `for n in tail_case_length..=longest_*` found, 2 confirmed by hand (anchor)" % nl)
     if n < 6:
         rep.bad("R07-SEED", "do_build_tree#sites", sh.loc(DT, f), "only %d find-or-create sites found in do_build_tree, 6 confirmed by hand (anchor)" % n)
 
@@ -291,3 +303,47 @@ def r_tailpick(sh, rep):
             rep.check(ok, "R07-TAILPICK", "%s#selection#%d" % (where, sel), sh.loc(GENU7, n), "a tail case is chosen from `%s` by table position (`.%s`) — the table is in order of first appearance, not of prefix length: with `[a, b, ..]` written before `[a, ..]` a list of three elements runs the clauses of `[a, ..]` only, and the first matching clause is skipped" % (name, ".".join(ms)), why_ok="chosen by prefix length (%s)" % ".".join(ordd), sample={"chain": ms})
     if sel < 2:
         rep.bad("R07-TAILPICK", "handle_decision_tree#selections", sh.loc(GENU7, arms[0]), "only %d selection(s) among the tail cases found (anchor: one for lists beyond the longest pattern, one per length)" % sel)
+
+
+# ---------------------------------------------------------------------------------------------------------
+# R07-LEAFARGS: positional agreement between a hoisted clause body and the leaves that call it
+# ---------------------------------------------------------------------------------------------------------
+def r_leafargs(sh, rep):
+    """A clause reached by several branches of the decision tree is compiled once, as a function of its pattern variables;
+    the parameter list is the `assigns` of the first leaf built (stored in then_map), and every leaf calls it with *its own*
+    row.assigns by position (CodeGenerator::handle_decision_tree, HoistedLeaf / HoistThen). Branches expand the clause's
+    columns in different orders, so a leaf's own order need not be the parameters' order: the argument list a leaf hands
+    over must be derived from the stored parameter list (re-ordered by name), not be the row's list as it comes.
+    `(None,_,True) (_,None,False) (Some(a),Some(b),_) -> a - b` otherwise computes b - a on one of its paths."""
+    fj = sh.file(DT)
+    f = find_method(fj, "TreeGen", "do_build_tree")
+    rep.touched(DT, "TreeGen::do_build_tree")
+    leafs = []
+    for blk in walk(f["body"]):
+        if blk.get("k") != "Block":
+            continue
+        stmts = blk.get("stmts", [])
+        params = None
+        for st in stmts:
+            if st.get("k") == "Local" and st.get("init") is not None and "then_map.get_mut(" in sh.nsrc(DT, st["init"]):
+                names = [x["name"] for x in walk(st["pat"]) if x.get("k") == "Ident"]
+                params = names[0] if names else None
+        if params is None:
+            continue
+        for c in walk(blk):
+            if c.get("k") == "Call" and last(call_name(c) or "") == "HoistedLeaf" and len(c["args"]) == 2:
+                leafs.append((blk, params, c))
+    if not leafs:
+        raise AnchorMissing("the leaf case of do_build_tree (then_map.get_mut + DecisionTree::HoistedLeaf)")
+    for i, (blk, params, c) in enumerate(leafs[:1]):
+        a = c["args"][1]
+        asrc = sh.nsrc(DT, a)
+        derived = bool(re.search(r"(?<![\w.])%s\b" % re.escape(params), asrc))
+        if not derived and a.get("k") == "Path":
+            loc = a["p"]
+            for n in walk(blk):
+                if n.get("k") == "MethodCall" and sh.nsrc(DT, n["recv"]) == loc and re.search(r"(?<![\w.])%s\b" % re.escape(params), sh.nsrc(DT, n)):
+                    derived = True
+                if n.get("k") == "Local" and n["pat"].get("k") == "Ident" and n["pat"]["name"] == loc and n.get("init") is not None and re.search(r"(?<![\w.])%s\b" % re.escape(params), sh.nsrc(DT, n["init"])):
+                    derived = True
+        rep.check(derived, "R07-LEAFARGS", "do_build_tree#leaf-arguments-follow-parameter-order", sh.loc(DT, c), "the leaf passes `%s` to the hoisted clause body without relating it to the stored parameter list `%s`: the call is positional, and two branches reaching the same clause can collect its variables in different orders — the body then runs with its variables swapped" % (asrc, params), sample={"argument_list": asrc, "parameter_list": params})
